@@ -1,6 +1,7 @@
 package main
 
 import (
+	"bytes"
 	"errors"
 	"fmt"
 	"sort"
@@ -1104,7 +1105,96 @@ func c09SortedNumbers(c *C) {
 	c.Nontrivial("sortednum:" + exp)
 }
 
+// c09FailingBody: a loop whose body fails in iteration k (k = 1 .. n) over every kind of iterable. `empty` runs exactly
+// when there is nothing to iterate - never because an iteration failed: the clause's counting function is not called,
+// its text is not part of what the unbuffered entry point had written, and the error is the body's.
+func c09FailingBody(c *C) {
+	r := c.R
+	datas := []struct {
+		name  string
+		v     any
+		items []string
+	}{
+		{"string", "abc", []string{"a", "b", "c"}}, {"multi-byte string", "é日😀", []string{"é", "日", "😀"}}, {"one-character string", "x", []string{"x"}},
+		{"slice", []string{"p", "q", "r"}, []string{"p", "q", "r"}}, {"array", [2]int{7, 8}, []string{"7", "8"}}, {"one-item slice", []int{5}, []string{"5"}},
+		{"map", map[string]int{"k1": 1, "k2": 2}, []string{"k1", "k2"}}, {"pointer to slice", &[]string{"u", "v"}, []string{"u", "v"}},
+	}
+	d := datas[r.Intn(len(datas))]
+	failK := 1 + r.Intn(len(d.items))
+	mods := r.Pick([]string{"", " sorted", " reversed", " reversed sorted"})
+	if d.name == "map" && !strings.Contains(mods, "sorted") {
+		mods += " sorted"
+	}
+	items := append([]string(nil), d.items...)
+	if strings.Contains(mods, "sorted") {
+		sort.Strings(items)
+	}
+	if strings.Contains(mods, "reversed") {
+		for i, j := 0, len(items)-1; i < j; i, j = i+1, j-1 {
+			items[i], items[j] = items[j], items[i]
+		}
+	}
+	src := "pre{% for x in data" + mods + " %}[{{ x }}{{ failat(forloop.Counter) }}]{% empty %}{{ emptied() }}EMPTY{{ failempty() }}{% endfor %}post"
+	set, _ := newSet(emptySetFiles)
+	tpl, err := set.FromString(src)
+	if err != nil {
+		c.Fail("reference-mismatch", D{"source": src, "compile_err": err.Error()})
+		return
+	}
+	emptied := 0
+	ctx := pongo2.Context{"data": d.v,
+		"failat": func(k int) (string, error) {
+			if k == failK {
+				return "", errors.New("c09: the loop body fails here")
+			}
+			return "", nil
+		},
+		"emptied":   func() string { emptied++; return "" },
+		"failempty": func() (string, error) { return "", errors.New("c09: the empty clause fails") }}
+	wantPartial := "pre"
+	for i := 0; i < failK-1; i++ {
+		wantPartial += "[" + items[i] + "]"
+	}
+	wantPartial += "[" + items[failK-1]
+	for ep := 0; ep < 4; ep++ {
+		emptied = 0
+		var xerr error
+		var buf bytes.Buffer
+		switch ep {
+		case 0:
+			_, xerr = tpl.Execute(ctx)
+		case 1:
+			_, xerr = tpl.ExecuteBytes(ctx)
+		case 2:
+			xerr = tpl.ExecuteWriter(ctx, &buf)
+		default:
+			xerr = tpl.ExecuteWriterUnbuffered(ctx, &buf)
+		}
+		c.Eval(1)
+		dd := D{"source": src, "data": d.name, "body_fails_in_iteration": failK, "entry_point": ep, "error": errStr(xerr), "written_to_the_unbuffered_writer": q(buf.String()), "calls_of_the_function_in_the_empty_clause": emptied}
+		switch {
+		case xerr == nil || !strings.Contains(xerr.Error(), "the loop body fails here"):
+			dd["why"] = "the error of the failing body must be reported"
+		case emptied != 0:
+			dd["why"] = "the empty clause was evaluated although there was something to iterate"
+		case ep == 3 && buf.String() != wantPartial:
+			dd["why"] = "what was streamed before the failure is the loop's output up to the failing place"
+			dd["expected_partial_output"] = q(wantPartial)
+		default:
+			continue
+		}
+		c.Fail("reference-mismatch", dd)
+		return
+	}
+	c.Cover("failing_body_" + d.name)
+	c.Nontrivial(fmt.Sprintf("failbody:%s:%d:%s", d.name, failK, mods))
+}
+
 func c09Run(c *C) {
+	if c.Idx%50 == 31 {
+		c09FailingBody(c)
+		return
+	}
 	if c.Idx%50 == 23 {
 		c09SortedNumbers(c)
 		return
@@ -1155,6 +1245,25 @@ func c09Run(c *C) {
 	if cerr != nil || xerr != nil || out != want {
 		c.Fail("reference-mismatch", D{"source": q(src), "output": q(out), "expected": q(want), "compile_err": errStr(cerr), "exec_err": errStr(xerr)})
 		return
+	}
+	// the same tree as an included file that ONE include tag renders several times within one execution (a partial used for
+	// every row): every rendering of the partial is a fresh render - its cycles start at their first argument, its
+	// ifchanged tags have seen nothing yet
+	if c.R.Chance(15) && !strings.Contains(src, "mf()") {
+		files := map[string]string{"/part.tpl": src, "/main.tpl": "{% macro inc() %}{% include \"/part.tpl\" %}{% endmacro %}{{ inc() }}|{{ inc() }}|{{ inc() }}|{% include \"/part.tpl\" %}|{% ssi \"/part.tpl\" parsed %}"}
+		iset, _ := newSet(files)
+		itpl, ierr := iset.FromFile("/main.tpl")
+		var iout string
+		if ierr == nil {
+			iout, ierr = execSpread(itpl, c09Ctx(), uint64(c.Idx))
+		}
+		c.Eval(1)
+		iwant := want + "|" + want + "|" + want + "|" + want + "|" + want
+		if ierr != nil || iout != iwant {
+			c.Fail("reference-mismatch", D{"files": files, "output": q(iout), "expected": q(iwant), "error": errStr(ierr), "why": "the tree is a partial that one include tag (inside a macro called three times) renders three times, then included and ssi-parsed once more: every rendering starts fresh"})
+			return
+		}
+		c.Cover("tree_as_partial_rendered_repeatedly")
 	}
 	for _, t := range []string{"{% for", "{% if", "{% cycle", "{% ifchanged", "{% firstof", "{% ifequal", "{% ifnotequal", "{% empty", "{% elif", "reversed", "sorted", "Parentloop", " as cy", "silent"} {
 		if strings.Contains(src, t) {
